@@ -4,13 +4,26 @@
 import sys, re, os
 ROOT = os.path.dirname(os.path.dirname(os.path.abspath(__file__)))
 def translate(src):
+    """line based: a function is either one line `pub fn ..{ .. }` or runs until a line that is just `}`"""
     out = []
-    for m in re.finditer(r'pub fn (\w+)\(([^)]*)\) -> (\w+) \{(.*?)\n\}|pub fn (\w+)\(([^)]*)\) -> (\w+) \{([^\n]*)\}', src, re.S):
-        name, args, ret, body = (m.group(1), m.group(2), m.group(3), m.group(4)) if m.group(1) else (m.group(5), m.group(6), m.group(7), m.group(8))
-        args = args.replace('usize', 'int')
-        ret = ret.replace('usize', 'int')
-        out.append('pub open spec fn %s(%s) -> %s {%s\n}\n' % (name, args, ret, body))
+    lines = src.split('\n')
+    i = 0
+    while i < len(lines):
+        l = lines[i]
+        if l.startswith('pub fn '):
+            chunk = [l]
+            if not l.rstrip().endswith('}') or l.count('{') != l.count('}'):
+                while lines[i].strip() != '}':
+                    i += 1
+                    chunk.append(lines[i])
+            text = '\n'.join(chunk)
+            m = re.match(r'pub fn (\w+)\(([^)]*)\) -> (\w+) \{(.*)\}\s*$', text, re.S)
+            name, args, ret, body = m.groups()
+            out.append('pub open spec fn %s(%s) -> %s {%s}\n' % (name, args.replace('usize', 'int'), ret.replace('usize', 'int'), body))
+        i += 1
     return '\n'.join(out)
+
+
 def main():
     out = sys.argv[1]
     post = open(os.path.join(ROOT, 'contracts', 'post.rs')).read()
